@@ -92,4 +92,86 @@ func litestream.(*restoreLevelCursor).ensureCurrent(c) (err)
   ensures !old(c.done) && old(c.current) == nil && err == nil && !c.done ==> it_idx[c.itr] == old(it_idx[c.itr]) + 1
   ensures !old(c.done) && old(c.current) == nil && (err != nil || c.done) ==> it_idx[c.itr] == old(it_idx[c.itr]) && c.current == nil
   ensures err != nil ==> !c.done
+
+// ---------------------------------------------------------------------------
+// C19 legacy v0.3.x restore
+
+pred snapSorted(ss []SnapshotInfoV3) = forall a int, b int :: {ss[a], ss[b]} 0 <= a && a < b && b < len(ss) ==> ss[a].CreatedAt <= ss[b].CreatedAt
+pred snapElig(ss []SnapshotInfoV3, j int, ts int) = ts == 0 || ss[j].CreatedAt <= ts
+
+func litestream.findBestSnapshotV3(snapshots, timestamp) (r)
+  requires snapSorted(snapshots)
+  ensures [C19.snap-none] r == nil <==> !(exists j int :: {snapshots[j]} 0 <= j && j < len(snapshots) && snapElig(snapshots, j, timestamp))
+  ensures [C19.snap-newest] r != nil ==> (exists k int :: {snapshots[k]} 0 <= k && k < len(snapshots) && r == addrof(snapshots, k) && snapElig(snapshots, k, timestamp) && (forall j int :: {snapshots[j]} 0 <= j && j < len(snapshots) && snapElig(snapshots, j, timestamp) ==> snapshots[j].CreatedAt <= snapshots[k].CreatedAt))
+  loop 0 invariant -1 <= i && i < len(snapshots) && timestamp != 0
+  loop 0 invariant forall j int :: {snapshots[j]} i < j && j < len(snapshots) ==> snapshots[j].CreatedAt > timestamp
+
+func litestream.sortSnapshotsV3ByCreatedAt(snapshots)
+  modifies elems(snapshots)
+  ensures [C19.snap-sorted] snapSorted(snapshots)
+  loop 0 invariant 0 <= i && i <= len(snapshots)
+  loop 0 invariant forall a int, b int :: {snapshots[a], snapshots[b]} 0 <= a && a < i && a < b && b < len(snapshots) ==> snapshots[a].CreatedAt <= snapshots[b].CreatedAt
+  loop 1 invariant 0 <= i && i < len(snapshots) - 1 && i + 1 <= j && j <= len(snapshots)
+  loop 1 invariant forall a int, b int :: {snapshots[a], snapshots[b]} 0 <= a && a < i && a < b && b < len(snapshots) ==> snapshots[a].CreatedAt <= snapshots[b].CreatedAt
+  loop 1 invariant forall b int :: {snapshots[b]} i < b && b < j ==> snapshots[i].CreatedAt <= snapshots[b].CreatedAt
+
+// segcnt is a definitional ghost function: the number of eligible segments among
+// the first j (its recursive definition is the first precondition).
+spec segcnt(Int) Int
+pred segElig(ss []WALSegmentInfoV3, j int, idx int, ts int) = ss[j].Index >= idx && (ts == 0 || ss[j].CreatedAt <= ts)
+pred segEq(a []WALSegmentInfoV3, i int, b []WALSegmentInfoV3, j int) = a[i].Index == b[j].Index && a[i].Offset == b[j].Offset && a[i].CreatedAt == b[j].CreatedAt && a[i].Generation == b[j].Generation && a[i].Size == b[j].Size
+
+func litestream.filterWALSegmentsV3(segments, snapshotIndex, timestamp) (result)
+  requires segcnt(0) == 0 && (forall j int :: {segments[j]} 0 <= j && j < len(segments) ==> segcnt(j + 1) == segcnt(j) + (segElig(segments, j, snapshotIndex, timestamp) ? 1 : 0))
+  modifies $alloc
+  ensures [C19.filter-count] len(result) == segcnt(len(segments))
+  ensures [C19.filter-exact] forall j int :: {segments[j]} 0 <= j && j < len(segments) && segElig(segments, j, snapshotIndex, timestamp) ==> 0 <= segcnt(j) && segcnt(j) < len(result) && segEq(result, segcnt(j), segments, j)
+  loop 0 invariant rangeindex < len(segments) && len(result) == segcnt(rangeindex + 1) && 0 <= segcnt(rangeindex + 1)
+  loop 0 invariant cap(result) == 0 || fresh(arr(result))
+  loop 0 invariant forall j int :: {segments[j]} 0 <= j && j <= rangeindex && segElig(segments, j, snapshotIndex, timestamp) ==> 0 <= segcnt(j) && segcnt(j) < len(result) && segEq(result, segcnt(j), segments, j)
+
+// Ghost bookkeeping for the v0.3.x WAL reconstruction: v3_opened counts the WAL
+// files opened so far, v3_walIndex is the index of the WAL file being built.
+ghost v3_opened Int
+ghost v3_walIndex Int
+
+func litestream.(*Replica).appendWALSegmentV3(r, ctx, client, generation, seg, f) (n, err)
+  requires 0 <= file_written[f] && file_written[f] < 4611686018427387904
+  modifies $heap, $alloc, file_written, file_synced
+  ensures n >= 0 && old(file_written[f]) + n < 4611686018427387904 && file_written == old(file_written)[f := old(file_written[f]) + n]
+
+func litestream.(*Replica).applyWALSegmentsV3(r, ctx, client, generation, snapshotIndex, segments, dbPath) (err)
+  requires v3_opened == 0 && 0 <= snapshotIndex && snapshotIndex < 4611686018427387904
+  modifies $heap, $alloc, file_written, file_synced, v3_opened, v3_walIndex
+  at os.OpenFile#1 assert [C19.order] seg.Index == snapshotIndex + v3_opened
+  at os.OpenFile#1 set v3_opened = v3_opened + 1
+  at os.OpenFile#1 set v3_walIndex = seg.Index
+  at litestream.(*Replica).appendWALSegmentV3#1 assert [C19.gap-offset] f != nil && seg.Offset == file_written[f]
+  at litestream.(*Replica).appendWALSegmentV3#1 assert [C19.gap-index-zero] seg.Offset == 0 ==> seg.Index == v3_walIndex
+  at litestream.(*Replica).appendWALSegmentV3#1 assert [C19.gap-index-nonzero] seg.Offset != 0 ==> seg.Index == v3_walIndex
+  loop 0 invariant expectedIndex == snapshotIndex + v3_opened && 0 <= v3_opened && v3_opened <= rangeindex + 1
+  loop 0 invariant f == nil ==> offset == 0
+  loop 0 invariant f != nil ==> offset == file_written[f] && 0 <= offset && offset < 4611686018427387904 && v3_walIndex == expectedIndex - 1
+
+// Format arbitration: ghosts record what the four queries returned.
+ghost arb_v3U Int
+ghost arb_ltxU Int
+ghost arb_v3S Int
+ghost arb_v3SCreated Int
+ghost arb_ltxS Int
+ghost arb_ltxSCreated Int
+
+func litestream.(*Replica).shouldUseV3Restore(r, ctx, client, timestamp) (use, err)
+  modifies $heap, $alloc, it_idx, arb_v3U, arb_ltxU, arb_v3S, arb_v3SCreated, arb_ltxS, arb_ltxSCreated
+  at litestream.(*Replica).TimeBoundsV3#1 set arb_v3U = $result1
+  at litestream.(*Replica).TimeBounds#1 set arb_ltxU = $result1
+  at litestream.(*Replica).findBestV3SnapshotForTimestamp#1 set arb_v3S = $result0
+  at litestream.(*Replica).findBestLTXSnapshotForTimestamp#1 set arb_ltxS = $result0
+  at litestream.(*Replica).findBestLTXSnapshotForTimestamp#1 set arb_ltxSCreated = ($result0 != nil ? $result0.CreatedAt : 0)
+  at litestream.(*Replica).findBestLTXSnapshotForTimestamp#1 set arb_v3SCreated = (arb_v3S != nil ? v3Snapshot.CreatedAt : 0)
+  ensures [C19.arbitrate-none] err == nil && arb_v3U == 0 ==> !use
+  ensures [C19.arbitrate-only-v3] err == nil && arb_v3U != 0 && arb_ltxU == 0 ==> use
+  ensures [C19.arbitrate-latest] err == nil && arb_v3U != 0 && arb_ltxU != 0 && timestamp == 0 ==> (use <==> arb_v3U > arb_ltxU)
+  ensures [C19.arbitrate-timestamp] err == nil && arb_v3U != 0 && arb_ltxU != 0 && timestamp != 0 ==> (use <==> arb_v3S != nil && (arb_ltxS == nil || arb_v3SCreated > arb_ltxSCreated))
+  ensures [C19.arbitrate-err] err != nil ==> !use
 */
